@@ -518,3 +518,44 @@ pub fn c07(args: &Args) {
     codec_bulk(seed, args.num("--bulk", 20000), &mut out);
     println!("events {}", out.finish());
 }
+
+/// C01's slice of the codec: s2 vectors INSIDE the verification bound with one or two large coefficients (at the edges of every
+/// unary-run length up to what the bound admits), compressed by the code and decompressed again -- an honest signature with such
+/// an s2 is astronomically rare but it is an "outcome of the signer's randomness", and it must verify.
+pub fn c01_codec(args: &Args) {
+    let seed = args.num("--seed", 1);
+    let thorough = args.thorough();
+    let dir = PathBuf::from(args.get_or("--out", "work/c01codec"));
+    let mut out = Shards::create(&dir, "codec", args.num("--shards", 12) as usize);
+    let mut rng = rng_for(seed, "c01-codec");
+    for &(n, l, bound) in &[(512usize, 625usize, 34034726i64), (1024, 1239, 70265242)] {
+        let maxmag = ((bound as f64) * 0.9).sqrt() as i32;
+        let mut mags: Vec<i32> = vec![];
+        for h in 1..=(maxmag >> 7) {
+            if thorough || h <= 4 || h % 4 == 0 || (h + 1) % 8 == 0 || h == (maxmag >> 7) {
+                mags.push(h * 128 - 1);
+                mags.push(h * 128);
+            }
+        }
+        mags.push(maxmag);
+        for (j, &m) in mags.iter().enumerate() {
+            for &pos in &[0usize, n / 2, n - 1] {
+                if !thorough && (j + pos) % 3 != 0 {
+                    continue;
+                }
+                let mut v = gaussian_vec(&mut rng, n, 90.0);
+                v[pos] = if j % 2 == 0 { m as i16 } else { -(m as i16) };
+                if j % 5 == 0 {
+                    v[(pos + 7) % n] = -(m.min(3500) as i16);
+                }
+                let norm: i64 = v.iter().map(|&x| (x as i64) * (x as i64)).sum();
+                if norm > bound || total_bits(&v) > 8 * l {
+                    continue;
+                }
+                out.emit(comp_event(&v, l, "sig-range-large-coefficient"));
+                out.emit(dec_event(&pack_coeffs(&v, l), n, "sig-range-large-coefficient-roundtrip"));
+            }
+        }
+    }
+    println!("events {}", out.finish());
+}
